@@ -22,6 +22,7 @@ import (
 	"os"
 	"path/filepath"
 	"regexp"
+	"sort"
 	"strconv"
 	"strings"
 	"sync"
@@ -31,6 +32,7 @@ import (
 	"github.com/grafana/carbon-relay-ng/aggregator"
 	"github.com/grafana/carbon-relay-ng/matcher"
 	"github.com/grafana/carbon-relay-ng/rewriter"
+	"github.com/grafana/carbon-relay-ng/route"
 	"github.com/grafana/carbon-relay-ng/table"
 
 	"verifharness/mon"
@@ -73,18 +75,133 @@ type Raw struct {
 	Ts   uint32 `json:"ts"`
 }
 
+// RouteOp is one change of the routing table between two flushes, applied the way an operator would
+// (Table.UpdateRoute = the admin command modRoute, Table.AddRoute, Table.DelRoute).
+type RouteOp struct {
+	Op    string            `json:"op"`             // mod | add | del
+	Route int               `json:"route"`          // slot in Case.Routes
+	Opts  map[string]string `json:"opts,omitempty"` // mod: filter option -> new value ("" clears it)
+	Cmd   bool              `json:"viaAdminCommand,omitempty"`
+}
+
+func (o RouteOp) String() string {
+	switch o.Op {
+	case "mod":
+		var kv []string
+		for _, k := range sortedKeys(o.Opts) {
+			kv = append(kv, k+"="+o.Opts[k])
+		}
+		return fmt.Sprintf("modRoute r%d %s", o.Route, strings.Join(kv, " "))
+	case "add":
+		return fmt.Sprintf("addRoute r%d", o.Route)
+	}
+	return fmt.Sprintf("delRoute r%d", o.Route)
+}
+
+func sortedKeys(m map[string]string) []string {
+	var ks []string
+	for k := range m {
+		ks = append(ks, k)
+	}
+	sort.Strings(ks)
+	return ks
+}
+
 type Case struct {
 	Index      int       `json:"index"`
 	Legacy     string    `json:"validation_level_legacy"`
 	Aggs       []AggSpec `json:"aggregators"`
 	Blacklist  []MSpec   `json:"blacklist"`
 	Rewriters  []RWSpec  `json:"rewriters"`
-	Routes     []MSpec   `json:"routes"`
+	Routes     []MSpec   `json:"routes"`                     // one slot per route that ever exists in the case: its first filter
+	RouteTypes []string  `json:"routeTypes,omitempty"`       // per slot: sendAllMatch | sendFirstMatch | consistentHashing
+	AddedLater []int     `json:"routesAddedLater,omitempty"` // slots that are not in the table at the start
 	Start      int64     `json:"startClock"`
 	Rounds     [][]Raw   `json:"rounds"` // raw lines dispatched before each round of ticks
 	Concurrent bool      `json:"concurrentTicks"`
+	// table changes per round: before the raw lines of the round, and between the raw lines and the ticks
+	OpsBeforeRaw   [][]RouteOp `json:"routeOpsBeforeRaw,omitempty"`
+	OpsBeforeTicks [][]RouteOp `json:"routeOpsBeforeTicks,omitempty"`
 
 	jm map[string]journey // memo of journey()
+}
+
+// routeState is the model of the routing table as it is at one moment of the case.
+type routeState struct {
+	present []bool
+	spec    []MSpec
+}
+
+func (c *Case) initRoutes() *routeState {
+	s := &routeState{present: make([]bool, len(c.Routes)), spec: append([]MSpec(nil), c.Routes...)}
+	for i := range s.present {
+		s.present[i] = true
+	}
+	for _, i := range c.AddedLater {
+		s.present[i] = false
+	}
+	return s
+}
+
+func (m *MSpec) set(opt, val string) {
+	switch opt {
+	case "prefix":
+		m.Prefix = val
+	case "notPrefix":
+		m.NotPrefix = val
+	case "sub":
+		m.Sub = val
+	case "notSub":
+		m.NotSub = val
+	case "regex":
+		m.Regex = val
+	case "notRegex":
+		m.NotRegex = val
+	default:
+		panic("harness: route option " + opt)
+	}
+}
+
+func (m MSpec) get(opt string) string {
+	switch opt {
+	case "prefix":
+		return m.Prefix
+	case "notPrefix":
+		return m.NotPrefix
+	case "sub":
+		return m.Sub
+	case "notSub":
+		return m.NotSub
+	case "regex":
+		return m.Regex
+	case "notRegex":
+		return m.NotRegex
+	}
+	panic("harness: route option " + opt)
+}
+
+// apply: the documentation of modRoute ("modify route by updating one or more option strings"): the named
+// options take the new values, the others stay; addRoute / delRoute add and remove the route.
+func (s *routeState) apply(op RouteOp) {
+	switch op.Op {
+	case "mod":
+		for k, v := range op.Opts {
+			s.spec[op.Route].set(k, v)
+		}
+	case "add":
+		s.present[op.Route] = true
+	case "del":
+		s.present[op.Route] = false
+	}
+}
+
+func (s *routeState) match(i int, name string) bool { return s.present[i] && s.spec[i].match(name) }
+
+func (s *routeState) describe(i int) string {
+	if !s.present[i] {
+		return "not in the table"
+	}
+	return fmt.Sprintf("%+v", s.spec[i])
 }
 
 // ---------------------------------------------------------------------------
@@ -228,7 +345,6 @@ type journey struct {
 	Consumed    []int  // aggregators that consume it, in order
 	DroppedBy   int    // index of the drop-raw rule that ended the journey, -1
 	NearMiss    bool   // some drop-raw rule's cheap filters accepted it, but the complete filter did not
-	Routes      []int
 }
 
 func (c *Case) journey(name string) journey {
@@ -261,12 +377,7 @@ func (c *Case) journey1(name string) journey {
 			j.NearMiss = true
 		}
 	}
-	for i, r := range c.Routes {
-		if r.match(j.Name) {
-			j.Routes = append(j.Routes, i)
-		}
-	}
-	return j
+	return j // which routes take it depends on the routing table of the moment (routeState)
 }
 
 // ---------------------------------------------------------------------------
@@ -412,11 +523,12 @@ func (c *Case) offers() offer {
 		if c.Legacy == "strict" && strings.ContainsAny(name, ":") {
 			o.invalidIfValidated++
 		}
-		for i, r := range c.Routes {
-			if i == 0 {
+		rs := c.initRoutes()
+		for i := range c.Routes {
+			if i == 0 || !rs.present[i] {
 				continue
 			}
-			if r.match(name) {
+			if rs.match(i, name) {
 				o.filteredDeliveries++
 			} else {
 				o.rejections++
@@ -508,14 +620,21 @@ func gen1(seed uint64, idx int, attempt int) Case {
 			}
 			c.Rewriters = append(c.Rewriters, w)
 		}
-		c.Routes = []MSpec{{}} // route 0 has no filter: sees everything the table routes
+		c.Routes = []MSpec{{}} // route 0 has no filter and is never changed: sees everything the table routes
 		for n := r.Range(1, 4); n > 0; n-- {
 			c.Routes = append(c.Routes, routePool[r.Intn(len(routePool))])
+		}
+		for n := r.PickInt([]int{0, 1, 1, 2}); n > 0; n-- { // routes that an operator adds while the relay runs
+			c.Routes = append(c.Routes, routePool[r.Intn(len(routePool))])
+			c.AddedLater = append(c.AddedLater, len(c.Routes)-1)
+		}
+		for range c.Routes {
+			c.RouteTypes = append(c.RouteTypes, r.Pick([]string{"sendAllMatch", "sendAllMatch", "sendFirstMatch", "consistentHashing"}))
 		}
 		c.Start = 1600000000 + int64(r.Intn(100000))
 		// every raw point must land in an open bucket of every rule: bucket > now − wait
 		slack := int64(1 << 30)
-		maxW := int64(0)
+		maxW, maxIv := int64(0), int64(0)
 		for _, a := range c.Aggs {
 			if s := int64(a.Wait) - int64(a.Interval); s < slack {
 				slack = s
@@ -523,23 +642,164 @@ func gen1(seed uint64, idx int, attempt int) Case {
 			if w := int64(a.Wait + a.Interval); w > maxW {
 				maxW = w
 			}
+			if int64(a.Interval) > maxIv {
+				maxIv = int64(a.Interval)
+			}
 		}
 		now := c.Start
 		id := 1000
-		nRounds := r.Range(1, 3)
+		nRounds := r.PickInt([]int{1, 2, 2, 3, 3})
 		for rd := 0; rd < nRounds; rd++ {
 			var lines []Raw
 			for n := r.Range(25, 60); n > 0; n-- {
 				id++
-				ts := now - int64(r.Intn(int(slack)+1)) + int64(r.Intn(4))
+				// timestamp relative to the rules' clock: most lines are current (a bucket that is open for
+				// every rule), the others are backfilled / late data or run ahead of the clock
+				var ts int64
+				switch r.Intn(14) {
+				case 0: // on and behind the edge of one rule's wait window (may still be current for a rule with a longer wait)
+					a := c.Aggs[r.Intn(len(c.Aggs))]
+					ts = now - int64(a.Wait) + int64(r.Range(-int(a.Interval), int(a.Interval)))
+				case 1: // older than every rule's wait
+					ts = now - maxW - int64(r.Intn(60))
+				case 2: // much older
+					ts = now - int64(r.PickInt([]int{600, 3600, 86400, 1000000, 500000000})) - int64(r.Intn(100))
+				case 3: // ahead of the clock, becomes due with this or the next round of ticks
+					ts = now + int64(r.Range(1, int(2*maxIv+maxW)))
+				case 4: // far in the future: never due within the case
+					ts = now + int64(r.PickInt([]int{3600, 1000000, 100000000}))
+				default:
+					ts = now - int64(r.Intn(int(slack)+1)) + int64(r.Intn(4))
+				}
 				lines = append(lines, Raw{Name: uni[r.Intn(len(uni))], ID: id, Ts: uint32(ts)})
 			}
 			c.Rounds = append(c.Rounds, lines)
 			now += maxW + 20
 		}
-		c.Rounds = append(c.Rounds, nil) // a last round of ticks without new input: nothing more may come out
+		c.Rounds = append(c.Rounds, nil) // a last round of ticks without new input: only what ran ahead of the clock may still come out
+		genOps(r, &c, outs)
 	}
 	return c
+}
+
+var routeOptions = []string{"prefix", "notPrefix", "sub", "notSub", "regex", "notRegex"}
+
+// values an operator could give a route option: those of the route pool
+func optionValues(opt string) []string {
+	var vs []string
+	for _, m := range routePool {
+		if v := m.get(opt); v != "" {
+			vs = append(vs, v)
+		}
+	}
+	return vs
+}
+
+var safeForCommand = regexp.MustCompile(`^[a-z.][a-z0-9.]*$`)
+
+// genOps draws the changes of the routing table between the flushes: modRoute on one or two filter options,
+// a route added, a route deleted. Candidates that change which of the rules' possible output names
+// (outs) the route takes are preferred, so that an aggregate name emitted before the change and again
+// after it has to follow the table of the moment.
+func genOps(r *mon.Rng, c *Case, outs []string) {
+	st := c.initRoutes()
+	everPresent := append([]bool(nil), st.present...)
+	accepts := func(s *routeState, slot int) string {
+		var b strings.Builder
+		for _, o := range outs {
+			if s.match(slot, o) {
+				b.WriteByte('1')
+			} else {
+				b.WriteByte('0')
+			}
+		}
+		return b.String()
+	}
+	pickSlot := func(want bool) int {
+		var cand []int
+		for i := 1; i < len(c.Routes); i++ {
+			if st.present[i] == want && (want || !everPresent[i]) {
+				cand = append(cand, i)
+			}
+		}
+		if len(cand) == 0 {
+			return -1
+		}
+		return cand[r.Intn(len(cand))]
+	}
+	genOp := func() (RouteOp, bool) {
+		var op RouteOp
+		for try := 0; try < 10; try++ {
+			switch x := r.Intn(10); {
+			case x < 6:
+				slot := pickSlot(true)
+				if slot < 0 {
+					continue
+				}
+				op = RouteOp{Op: "mod", Route: slot, Opts: map[string]string{}}
+				for n := r.PickInt([]int{1, 1, 2}); n > 0; n-- {
+					opt := r.Pick(routeOptions)
+					if st.spec[slot].get(opt) != "" && r.Chance(1, 3) {
+						op.Opts[opt] = "" // the operator removes this condition
+					} else {
+						op.Opts[opt] = r.Pick(optionValues(opt))
+					}
+				}
+				op.Cmd = r.Chance(1, 25)
+				for _, v := range op.Opts {
+					if !safeForCommand.MatchString(v) || strings.Contains(v, "true") || strings.Contains(v, "false") {
+						op.Cmd = false // the command scanner has its own ideas about such words; C11 is not about it
+					}
+				}
+			case x < 8:
+				slot := pickSlot(false)
+				if slot < 0 {
+					continue
+				}
+				op = RouteOp{Op: "add", Route: slot}
+			default:
+				slot := pickSlot(true)
+				if slot < 0 {
+					continue
+				}
+				op = RouteOp{Op: "del", Route: slot}
+			}
+			after := &routeState{present: append([]bool(nil), st.present...), spec: append([]MSpec(nil), st.spec...)}
+			after.apply(op)
+			if accepts(st, op.Route) != accepts(after, op.Route) || (try >= 7 && r.Bool()) {
+				return op, true
+			}
+		}
+		return op, false
+	}
+	c.OpsBeforeRaw = make([][]RouteOp, len(c.Rounds))
+	c.OpsBeforeTicks = make([][]RouteOp, len(c.Rounds))
+	for rd := range c.Rounds {
+		for phase := 0; phase < 2; phase++ {
+			n := r.PickInt([]int{0, 1, 1, 2})
+			if phase == 1 {
+				n = r.PickInt([]int{0, 0, 1})
+			}
+			if rd == 0 && phase == 0 {
+				n = 0 // nothing has happened yet: the table of the start is the table
+			}
+			for ; n > 0; n-- {
+				op, ok := genOp()
+				if !ok {
+					continue
+				}
+				st.apply(op)
+				if op.Op == "add" {
+					everPresent[op.Route] = true
+				}
+				if phase == 0 {
+					c.OpsBeforeRaw[rd] = append(c.OpsBeforeRaw[rd], op)
+				} else {
+					c.OpsBeforeTicks[rd] = append(c.OpsBeforeTicks[rd], op)
+				}
+			}
+		}
+	}
 }
 
 // ---------------------------------------------------------------------------
@@ -549,6 +809,34 @@ type stats struct {
 	raw, rawBlacklisted, rawDropped, rawNearMiss, rawConsumed, rawRouteDeliveries int
 	aggExpected, aggDeliveries, aggRejections, ticks, tables                      int
 	loop, blOrRw, invalidIfValidated                                              int
+	rawClosed, rawClosedDropped, rawAhead, rawAheadDropped, tooOldModel, tooOldSeen int
+	routeOps, routeMods, routeAdds, routeDels, aggAgainAfterFlip                    int
+}
+
+// tapRoute is a real route of the relay (its own filter, its own Update: what modRoute changes) without
+// destinations, whose Dispatch records what the table hands to it.
+type tapRoute struct {
+	route.Route
+	cap *mon.CaptureRoute
+}
+
+func (t *tapRoute) Dispatch(buf []byte) { t.cap.Dispatch(buf) }
+
+func newTap(key, typ string, m MSpec) *tapRoute {
+	var r route.Route
+	var err error
+	switch typ {
+	case "sendFirstMatch":
+		r, err = route.NewSendFirstMatch(key, m.real(), nil)
+	case "consistentHashing":
+		r, err = route.NewConsistentHashing(key, m.real(), nil)
+	default:
+		r, err = route.NewSendAllMatch(key, m.real(), nil)
+	}
+	if err != nil {
+		panic(err)
+	}
+	return &tapRoute{Route: r, cap: mon.NewCaptureRoute(key, m.real(), nil)}
 }
 
 type expAgg struct {
@@ -609,12 +897,63 @@ func runCase(res *mon.Result, c Case, st *stats, scratch string) {
 		models[i] = oracle.NewAggModel(a.Fun, a.Interval, a.Wait)
 		keys = append(keys, mon.KeyAggIn(ag.Key), mon.KeyAggOut(ag.Key))
 	}
+	rs := c.initRoutes()
+	taps := make([]*tapRoute, len(c.Routes))
 	routes := make([]*mon.CaptureRoute, len(c.Routes))
 	for i, r := range c.Routes {
-		routes[i] = mon.NewCaptureRoute(fmt.Sprintf("c11-%d-r%d", c.Index, i), r.real(), nil)
-		tbl.AddRoute(routes[i])
+		typ := ""
+		if i < len(c.RouteTypes) {
+			typ = c.RouteTypes[i]
+		}
+		taps[i] = newTap(fmt.Sprintf("c11-%d-r%d", c.Index, i), typ, r)
+		routes[i] = taps[i].cap
+		if rs.present[i] {
+			tbl.AddRoute(taps[i])
+		}
 	}
-	keys = append(keys, mon.KeyInvalid, mon.KeyBlacklist, mon.KeyOutOfOrder)
+	var recentOps []string // table changes since the last flush (for messages)
+	applyOps := func(rd int, when string, ops []RouteOp) {
+		for _, op := range ops {
+			res.LogCase("table %d round %d %s: %s", c.Index, rd, when, op)
+			key := taps[op.Route].Key()
+			switch op.Op {
+			case "mod":
+				var err error
+				if op.Cmd {
+					cmd := "modRoute " + key
+					for _, k := range sortedKeys(op.Opts) {
+						cmd += " " + k + "=" + op.Opts[k]
+					}
+					err = mon.Apply(tbl, cmd)
+				} else {
+					err = tbl.UpdateRoute(key, op.Opts)
+				}
+				if err != nil {
+					panic(fmt.Sprintf("harness: case %d: %s refused: %v", c.Index, op, err))
+				}
+				st.routeMods++
+			case "add":
+				tbl.AddRoute(taps[op.Route])
+				st.routeAdds++
+			case "del":
+				if err := tbl.DelRoute(key); err != nil {
+					panic(fmt.Sprintf("harness: case %d: %s refused: %v", c.Index, op, err))
+				}
+				st.routeDels++
+			}
+			rs.apply(op)
+			st.routeOps++
+			recentOps = append(recentOps, fmt.Sprintf("%s (round %d, %s)", op, rd, when))
+		}
+	}
+	changed := func() string {
+		if len(recentOps) == 0 {
+			return ""
+		}
+		return fmt.Sprintf("; routing table changes since the previous flush: %v", recentOps)
+	}
+	lastAccept := map[string]string{} // aggregate name -> which routes took it when it was last emitted
+	keys = append(keys, mon.KeyInvalid, mon.KeyBlacklist, mon.KeyOutOfOrder, mon.KeyAggTooOld)
 	d := mon.NewDeltas(keys...)
 	expIn := make([]int64, len(aggs))  // model: raw points consumed per rule so far
 	expOut := make([]int64, len(aggs)) // model: aggregate lines emitted per rule so far
@@ -648,7 +987,24 @@ func runCase(res *mon.Result, c Case, st *stats, scratch string) {
 		return out
 	}
 
+	// a first tick at the start of the case: from here on every bucket is either open (bucket start > now − wait)
+	// or closed by a tick (tick − wait ≥ bucket start) when a raw line arrives; nothing is pending, nothing may come out
+	for i := range aggs {
+		ticks[i] <- time.Unix(c.Start, 0)
+		aggs[i].Snapshot()
+		if e := models[i].Expected(c.Start); len(e) != 0 {
+			panic("harness: model emits at the first tick")
+		}
+	}
+	opsOf := func(l [][]RouteOp, rd int) []RouteOp {
+		if rd < len(l) {
+			return l[rd]
+		}
+		return nil
+	}
+
 	for rd, lines := range c.Rounds {
+		applyOps(rd, "before the raw lines", opsOf(c.OpsBeforeRaw, rd))
 		// ---------------- raw phase
 		nowS := atomic.LoadInt64(&clock)
 		expRaw := make([]map[string]bool, len(routes))
@@ -668,12 +1024,33 @@ func runCase(res *mon.Result, c Case, st *stats, scratch string) {
 				why[line] = "it is blacklisted"
 			} else {
 				outLine := fmt.Sprintf("%s %d %d", j.Name, raw.ID, raw.Ts)
+				age := "" // where the timestamp stands for the drop-raw rule that consumes the line
 				for _, i := range j.Consumed {
 					expIn[i]++
 					st.rawConsumed++
-					cl, _, _ := models[i].Point(c.Aggs[i].outName(j.Name), float64(raw.ID), raw.Ts, nowS, false)
-					if cl != oracle.Open {
-						panic(fmt.Sprintf("harness generator: case %d raw %v is %v for rule %d", c.Index, raw, cl, i))
+					// a consumed line counts as taken in whatever its timestamp; what it contributes to is the bucket model's business
+					switch cl := models[i].Classify(raw.Ts, nowS); cl {
+					case oracle.Open:
+						models[i].Point(c.Aggs[i].outName(j.Name), float64(raw.ID), raw.Ts, nowS, false)
+						if int64(raw.Ts) > nowS {
+							st.rawAhead++
+						}
+					case oracle.Closed: // too old for this rule: contributes to nothing
+						st.rawClosed++
+						st.tooOldModel++
+					default:
+						panic(fmt.Sprintf("harness generator: case %d raw %v is %v for rule %d although a tick was delivered at the current clock", c.Index, raw, cl, i))
+					}
+					if i == j.DroppedBy {
+						a := c.Aggs[i]
+						switch {
+						case models[i].Classify(raw.Ts, nowS) == oracle.Closed:
+							st.rawClosedDropped++
+							age = fmt.Sprintf("; its timestamp %d is older than the rule's wait window (clock %d, interval %d, wait %d: bucket %d ≤ %d), which makes the point too old to be aggregated but does not exempt the line from drop-raw", raw.Ts, nowS, a.Interval, a.Wait, oracle.Bucket(raw.Ts, a.Interval), nowS-int64(a.Wait))
+						case int64(raw.Ts) > nowS:
+							st.rawAheadDropped++
+							age = fmt.Sprintf("; its timestamp %d is ahead of the clock %d", raw.Ts, nowS)
+						}
 					}
 				}
 				if j.NearMiss {
@@ -681,11 +1058,13 @@ func runCase(res *mon.Result, c Case, st *stats, scratch string) {
 				}
 				if j.DroppedBy >= 0 {
 					st.rawDropped++
-					why[outLine] = fmt.Sprintf("drop-raw rule %d (%+v) completely matches it", j.DroppedBy, c.Aggs[j.DroppedBy].M)
+					why[outLine] = fmt.Sprintf("drop-raw rule %d (%+v) completely matches it%s", j.DroppedBy, c.Aggs[j.DroppedBy].M, age)
 				} else {
-					for _, i := range j.Routes {
-						expRaw[i][outLine] = true
-						st.rawRouteDeliveries++
+					for i := range routes {
+						if rs.match(i, j.Name) {
+							expRaw[i][outLine] = true
+							st.rawRouteDeliveries++
+						}
 					}
 				}
 			}
@@ -728,25 +1107,26 @@ func runCase(res *mon.Result, c Case, st *stats, scratch string) {
 					}
 				}
 				if seen[s] {
-					viol("raw-duplicated", "round %d: route %d (%+v) received raw line %q twice", rd, i, c.Routes[i], s)
+					viol("raw-duplicated", "round %d: route %d (%s) received raw line %q twice", rd, i, rs.describe(i), s)
 				}
 				seen[s] = true
 				if !expRaw[i][s] {
 					if w, ok := why[s]; ok && strings.HasPrefix(w, "drop-raw") {
 						viol("dropraw-leak", "round %d: route %d received raw line %q although %s", rd, i, s, w)
 					} else {
-						viol("raw-unexpected", "round %d: route %d (%+v) received %q which the pipeline model does not send there", rd, i, c.Routes[i], s)
+						viol("raw-unexpected", "round %d: route %d (%s) received %q which the pipeline model does not send there%s", rd, i, rs.describe(i), s, changed())
 					}
 				}
 			}
 			for s := range expRaw[i] {
 				if !seen[s] {
-					viol("raw-withheld", "round %d: raw line %q is not completely matched by any drop-raw rule and route %d (%+v) accepts its name, but it did not arrive", rd, s, i, c.Routes[i])
+					viol("raw-withheld", "round %d: raw line %q is not completely matched by any drop-raw rule and route %d (%s) accepts its name, but it did not arrive%s", rd, s, i, rs.describe(i), changed())
 				}
 			}
 		}
 
-		// ---------------- tick phase: everything becomes due
+		// ---------------- tick phase: everything that is not ahead of the clock becomes due
+		applyOps(rd, "between the raw lines and the ticks", opsOf(c.OpsBeforeTicks, rd))
 		maxW := int64(0)
 		for _, a := range c.Aggs {
 			if w := int64(a.Wait + a.Interval); w > maxW {
@@ -816,6 +1196,20 @@ func runCase(res *mon.Result, c Case, st *stats, scratch string) {
 		got = take()
 		st.aggExpected += len(all)
 		for _, e := range all {
+			var acc strings.Builder
+			for ri := range routes {
+				if rs.match(ri, e.Name) {
+					acc.WriteByte('1')
+				} else {
+					acc.WriteByte('0')
+				}
+			}
+			if prev, ok := lastAccept[e.Name]; ok && prev != acc.String() {
+				st.aggAgainAfterFlip++ // emitted before, and the set of routes that must take it has changed since
+			}
+			lastAccept[e.Name] = acc.String()
+		}
+		for _, e := range all {
 			loop := false
 			for _, a := range c.Aggs {
 				if a.M.match(e.Name) {
@@ -836,9 +1230,9 @@ func runCase(res *mon.Result, c Case, st *stats, scratch string) {
 			used := make([]bool, len(all))
 			var exp []int
 			for k, e := range all {
-				if c.Routes[ri].match(e.Name) {
+				if rs.match(ri, e.Name) {
 					exp = append(exp, k)
-				} else {
+				} else if rs.present[ri] {
 					st.aggRejections++
 				}
 			}
@@ -893,8 +1287,8 @@ func runCase(res *mon.Result, c Case, st *stats, scratch string) {
 				for k, e := range all {
 					same := e.Ts == l.Ts && closeAny(l.Val, e.Vals)
 					switch {
-					case same && e.Name == l.Name && !c.Routes[ri].match(e.Name):
-						sig, msg = "aggregate-misrouted", fmt.Sprintf("the route's filter %+v does not accept the name %q", c.Routes[ri], e.Name)
+					case same && e.Name == l.Name && !rs.match(ri, e.Name):
+						sig, msg = "aggregate-misrouted", fmt.Sprintf("the route (now: %s) does not accept the name %q%s", rs.describe(ri), e.Name, changed())
 					case same && e.Name == l.Name && used[k] && sig == "aggregate-unexpected":
 						sig, msg = "aggregate-duplicated", "it was already delivered to this route once"
 					case same && e.Name != l.Name && c.rewrite(e.Name) == l.Name:
@@ -913,7 +1307,7 @@ func runCase(res *mon.Result, c Case, st *stats, scratch string) {
 						}
 					}
 					if ri != 0 && emitted {
-						viol("aggregate-not-routed", "round %d: aggregate %s %v %d of rule %d reached the route without filter but not route %d whose filter %+v accepts the name", rd, e.Name, e.Vals, e.Ts, e.From, ri, c.Routes[ri])
+						viol("aggregate-not-routed", "round %d: aggregate %s %v %d of rule %d reached the route without filter but not route %d whose filter (now: %s) accepts the name%s", rd, e.Name, e.Vals, e.Ts, e.From, ri, rs.describe(ri), changed())
 					} else {
 						bl := ""
 						if c.blacklisted(e.Name) {
@@ -924,8 +1318,10 @@ func runCase(res *mon.Result, c Case, st *stats, scratch string) {
 				}
 			}
 		}
+		recentOps = nil
 	}
-	// DelAggregator shuts the rule down (one more flush with now − wait: nothing is pending)
+	st.tooOldSeen += int(d.Get(mon.KeyAggTooOld))
+	// DelAggregator shuts the rule down (one more flush with now − wait: nothing that is due is pending)
 	for range aggs {
 		if err := tbl.DelAggregator(0); err != nil {
 			panic(err)
@@ -937,8 +1333,12 @@ func runCase(res *mon.Result, c Case, st *stats, scratch string) {
 			viol("aggregate-unexpected", "after the last round, at shutdown: route %d received %q", ri, s)
 		}
 	}
-	for _, r := range routes {
-		tbl.DelRoute(r.Key())
+	for i, t := range taps {
+		if rs.present[i] {
+			if err := tbl.DelRoute(t.Key()); err != nil {
+				panic(err)
+			}
+		}
 	}
 	for range c.Blacklist {
 		tbl.DelBlacklist(0)
@@ -959,11 +1359,12 @@ func closeAny(v float64, refs []float64) bool {
 
 func main() {
 	res := mon.NewResult("C11")
-	res.Rule = "tables generated from (seed,index): 2-4 aggregators (7 regex/format templates incl. self-matching, identity and chained outputs; random prefix/sub/notSub/notPrefix/notRegex; drop-raw 40%; cache on/off; all ten functions in rotation), 0-2 blacklist entries and 0-2 rewriters chosen to hit aggregate names, 2-5 capture routes (one without filter; others incl. filters that only differ between name and whole line), strict or medium validation with ':' in some aggregate names; 1-3 rounds of 25-60 raw lines from a 45-name universe followed by ticks that make every bucket due, plus a final round of ticks only; regenerated (<=30 attempts) until non-trivial = some aggregate name completely matches a rule's filter AND some aggregate name is blacklisted or changed by a rewriter AND >=1 raw line is consumed by a drop-raw rule AND >=1 raw line passes a drop-raw rule's cheap filters but not its complete filter AND a filtered route accepts one aggregate and rejects another; distinct = table index"
+	res.Rule = "tables generated from (seed,index): 2-4 aggregators (7 regex/format templates incl. self-matching, identity and chained outputs; random prefix/sub/notSub/notPrefix/notRegex; drop-raw 40%; cache on/off; all ten functions in rotation), 0-2 blacklist entries and 0-2 rewriters chosen to hit aggregate names, 2-5 routes plus 0-2 added later (real routes of the three kinds without destinations whose Dispatch is recorded; one without filter that is never changed; others incl. filters that only differ between name and whole line), strict or medium validation with ':' in some aggregate names; 1-3 rounds of 25-60 raw lines from a 45-name universe, their timestamps relative to the rules' mocked clock: ~64% in a bucket open for every rule, the rest on/behind the edge of one rule's wait window, older than every wait, much older (10 min .. 16 years), ahead of the clock (due with this or the next ticks) and far ahead (never due); each round followed by ticks that make every bucket that is not ahead of the clock due, plus a final round of ticks only; between the flushes the routing table is changed (0-2 ops before a round's raw lines, 0-1 between raw lines and ticks: modRoute/UpdateRoute of 1-2 of prefix/notPrefix/sub/notSub/regex/notRegex incl. clearing one, route added, route deleted; candidates that change which possible aggregate names the route takes are preferred; 1 in 25 mods with plain values goes through the admin command) and raw and aggregate routing is checked against the filter model on the table as it is at that moment; regenerated (<=30 attempts) until non-trivial = some aggregate name completely matches a rule's filter AND some aggregate name is blacklisted or changed by a rewriter AND >=1 raw line is consumed by a drop-raw rule AND >=1 raw line passes a drop-raw rule's cheap filters but not its complete filter AND a filtered route accepts one aggregate and rejects another; distinct = table index"
 	res.Assume("filter semantics = the documented conjunction on the metric name, evaluated with the standard library (regexp, strings); that the relay's matcher agrees is property C03")
 	res.Assume("rewriters = plain replace (max occurrences) or /regex/ replace-all, skipped when 'not' is a substring of the name (C04 checks the rewriter itself)")
 	res.Assume("Table.In is unbuffered and served by one goroutine, so two harness sentinels through it are a barrier; Snapshot() is a barrier for an aggregator")
-	res.Assume("all raw points are generated into open buckets (bucket > now - wait), so the bucket contents are fixed; late points are C10's subject")
+	res.Assume("a tick is delivered to every rule at the start and the clock only moves right before ticks: when a raw line arrives, its bucket is either open for a rule (bucket > now - wait: it contributes) or was closed by a tick (it contributes to nothing); late-but-unflushed points are C10's subject. Either way a consumed line counts in direction=in and, for a drop-raw rule, is withheld")
+	res.Assume("modRoute semantics = the named filter options take the new values, the other options stay (docs/tcp-admin-interface.md); a route taken out of the table receives nothing any more")
 	mon.InitRepo()
 	scratch := filepath.Join(mon.Scratch(), "c11")
 	os.MkdirAll(scratch, 0755)
@@ -994,7 +1395,16 @@ func main() {
 		} else {
 			c = gen(mon.Seed(), idx)
 		}
-		res.LogCase("table %d: %d aggregators %d blacklist %d rewriters %d routes %d rounds", idx, len(c.Aggs), len(c.Blacklist), len(c.Rewriters), len(c.Routes), len(c.Rounds))
+		nops := 0
+		for rd := range c.Rounds {
+			if rd < len(c.OpsBeforeRaw) {
+				nops += len(c.OpsBeforeRaw[rd])
+			}
+			if rd < len(c.OpsBeforeTicks) {
+				nops += len(c.OpsBeforeTicks[rd])
+			}
+		}
+		res.LogCase("table %d: %d aggregators %d blacklist %d rewriters %d routes %d rounds %d route table changes", idx, len(c.Aggs), len(c.Blacklist), len(c.Rewriters), len(c.Routes), len(c.Rounds), nops)
 		done := make(chan struct{})
 		go func() {
 			runCase(res, c, &st, scratch)
@@ -1028,6 +1438,17 @@ func main() {
 	res.Count("raw_dropped_by_dropraw", st.rawDropped)
 	res.Count("raw_passing_cheap_filters_of_a_dropraw_rule_only", st.rawNearMiss)
 	res.Count("raw_route_deliveries", st.rawRouteDeliveries)
+	res.Count("raw_consumptions_for_a_closed_bucket_(too_old)", st.rawClosed)
+	res.Count("raw_too_old_yet_dropped_by_dropraw", st.rawClosedDropped)
+	res.Count("raw_consumptions_ahead_of_the_clock", st.rawAhead)
+	res.Count("raw_ahead_of_the_clock_dropped_by_dropraw", st.rawAheadDropped)
+	res.Count("too_old_counter_model", st.tooOldModel)
+	res.Count("too_old_counter_observed", st.tooOldSeen)
+	res.Count("route_table_changes", st.routeOps)
+	res.Count("route_filter_changes_(modRoute)", st.routeMods)
+	res.Count("routes_added_between_flushes", st.routeAdds)
+	res.Count("routes_deleted_between_flushes", st.routeDels)
+	res.Count("aggregate_names_emitted_again_after_their_routing_changed", st.aggAgainAfterFlip)
 	res.Count("ticks", st.ticks)
 	res.Count("aggregate_lines", st.aggExpected)
 	res.Count("aggregate_route_deliveries", st.aggDeliveries)
@@ -1040,6 +1461,12 @@ func main() {
 		res.Floor("aggregate_lines", st.aggExpected, n*5)
 		res.Floor("aggregates_matching_a_rule_filter", st.loop, n)
 		res.Floor("raw_dropped_by_dropraw", st.rawDropped, n)
+		res.Floor("raw_too_old_yet_dropped_by_dropraw", st.rawClosedDropped, n)
+		res.Floor("raw_ahead_of_the_clock_dropped_by_dropraw", st.rawAheadDropped, n/2)
+		res.Floor("route_filter_changes_(modRoute)", st.routeMods, n/2)
+		res.Floor("routes_added_between_flushes", st.routeAdds, n/8)
+		res.Floor("routes_deleted_between_flushes", st.routeDels, n/8)
+		res.Floor("aggregate_names_emitted_again_after_their_routing_changed", st.aggAgainAfterFlip, n/2)
 	}
 	res.Write()
 }
